@@ -107,6 +107,13 @@ public class BigNumOverrides {
         return IntValue.gen(toBig(x).compareTo(toBig(y)));
     }
 
+    @TLAPlusOperator(identifier = "BigShr", module = "BigNum", warn = false)
+    public static Value bigShr(final Value x, final Value k) {
+        final BigInteger b = toBig(x);
+        final BigInteger m = b.abs().shiftRight(((IntValue) k).val);
+        return fromBig(b.signum() < 0 ? m.negate() : m);
+    }
+
     @TLAPlusOperator(identifier = "BigShl", module = "BigNum", warn = false)
     public static Value bigShl(final Value x, final Value k) {
         return fromBig(toBig(x).shiftLeft(((IntValue) k).val));
